@@ -92,13 +92,19 @@ theorem extLenStep_bad (s : S) (l p : Nat) (h : extLenOk l p = false) (hf : s.cf
         simp [a, b, hv.1, hv.2]
     · simp [h1, h2] at h
 
-theorem drain_stop (F : Nat) (s x : S) (buf b : Bytes) (h : processData s buf = (x, b, false)) :
-    drain (F + 1) s buf = (x, b) := by
-  rw [drain_one, h]; simp
+theorem drain_stop (F : Nat) (s x : S) (buf b : Bytes) (hwc : s.wasClean = false)
+    (h : processData s buf = (x, b, false)) : drain (F + 1) s buf = (x, b) := by
+  rw [drain_one _ _ _ hwc, h]; simp
 
-theorem drain_stop2 (F : Nat) (s : S) (buf : Bytes) (h : (processData s buf).2.2 = false) :
-    (drain (F + 1) s buf).1 = (processData s buf).1 := by
-  rw [drain_one, h]; simp
+theorem drain_stop2 (F : Nat) (s : S) (buf : Bytes) (hwc : s.wasClean = false)
+    (h : (processData s buf).2.2 = false) : (drain (F + 1) s buf).1 = (processData s buf).1 := by
+  rw [drain_one _ _ _ hwc, h]; simp
+
+/-- once the peer's close frame has been taken in, the loop does nothing -/
+theorem drain_wasClean (F : Nat) (s : S) (buf : Bytes) (h : s.wasClean = true) : drain F s buf = (s, buf) := by
+  cases F with
+  | zero => rfl
+  | succ F => rw [drain]; simp [h]
 
 theorem processHeader_viol (s : S) (o0 o1 : UInt8) (buf : Bytes)
     (hv : headerViolations s.cfg s.insideMessage (Hd.ofOctets o0 o1).fin (Hd.ofOctets o0 o1).rsv
@@ -176,7 +182,7 @@ theorem drain_rest (c : Ctx) (s' : S) (j' : J) (rest : Bytes) (F F' : Nat) (hr :
     | zero => omega
     | succ F =>
       simp only [List.length_nil, Nat.lt_irrefl, decide_false, Bool.false_and, Bool.false_eq_true, if_false]
-      rw [drain_stop F s' s' [] [] (processData_short s' [] hr.cur (by simp))]
+      rw [drain_stop F s' s' [] [] hr.q.wc (processData_short s' [] hr.cur (by simp))]
   · have hpos : rest.length > 0 := by
       cases rest with
       | nil => exact absurd rfl hne
@@ -228,7 +234,7 @@ theorem data_refines (c : Ctx) (s : S) (j : J) (o0 o1 : UInt8) (rest2 : Bytes) (
       rw [this]
     · intro hz; rw [hz]; rfl
   obtain ⟨F, rfl⟩ : ∃ F', F = F' + 2 := ⟨F - 2, by omega⟩
-  have hd1 := drain_one (F + 1) s (o0 :: o1 :: rest2)
+  have hd1 := drain_one (F + 1) s (o0 :: o1 :: rest2) hr.q.wc
   rw [e1, e2] at hd1
   simp only [] at hd1
   by_cases hover : overLimit { s with cur := some (hdrRec h rest2), ptr := 0, unmask := um } (hdrRec h rest2) = true
@@ -306,7 +312,7 @@ theorem data_refines (c : Ctx) (s : S) (j : J) (o0 o1 : UInt8) (rest2 : Bytes) (
       simp only [hbl0, decide_true, Bool.or_true, if_true] at hd1
       have hp := pr.1 hu
       show Agree c (drain (F + 1 + 1) s (o0 :: o1 :: rest2)).1 j1.evs (.fail 1007) (o0 :: o1 :: rest2).length
-      rw [hd1, drain_stop2 F sB body (by rw [pds]; exact hp.1), pds]
+      rw [hd1, drain_stop2 F sB body hm.q.wc (by rw [pds]; exact hp.1), pds]
       exact Agree.of_Failed c sB _ _ 1007 _ hp.2 hm.evs
     · simp only [hu, if_false]
       by_cases hcomp : body.length ≥ h.plen rest2
@@ -331,7 +337,7 @@ theorem data_refines (c : Ctx) (s : S) (j : J) (o0 o1 : UInt8) (rest2 : Bytes) (
               = 2 * (body.drop (h.plen rest2)).length := by
             unfold mu; simp
           refine ⟨_, hp.2, hrl, ?_⟩
-          rw [hd1, drain_one, pds, hp.1]
+          rw [hd1, drain_one _ _ _ hm.q.wc, pds, hp.1]
           exact drain_rest c _ _ _ _ _ hp.2 (by rw [hmu']; omega) ⟨by omega, fun _ => by rw [hmu']; omega⟩
         | true =>
           simp only [if_true]
@@ -339,7 +345,7 @@ theorem data_refines (c : Ctx) (s : S) (j : J) (o0 o1 : UInt8) (rest2 : Bytes) (
           · simp only [hb, if_true]
             have hp := pr.2.2.2.1 hu hcomp hfin hb
             show Agree c (drain (F + 1 + 1) s (o0 :: o1 :: rest2)).1 (j1.after un).evs (.fail 1007) (o0 :: o1 :: rest2).length
-            rw [hd1, drain_stop2 F sB body (by rw [pds]; exact hp.1), pds]
+            rw [hd1, drain_stop2 F sB body hm.q.wc (by rw [pds]; exact hp.1), pds]
             exact Agree.of_Failed c sB _ _ 1007 _ hp.2 hm.evs
           · have hb' : ((j1.after un).validate && !(j1.after un).compressed && decide (uAfter j1 un ≠ .s0)) = false := by
               simpa using hb
@@ -348,7 +354,7 @@ theorem data_refines (c : Ctx) (s : S) (j : J) (o0 o1 : UInt8) (rest2 : Bytes) (
             have hmu' : mu s' (body.drop (h.plen rest2)) = 2 * (body.drop (h.plen rest2)).length := by
               unfold mu; simp [hr'.cur]
             refine ⟨s', hr', hrl, ?_⟩
-            rw [hd1, drain_one, pds, e']
+            rw [hd1, drain_one _ _ _ hm.q.wc, pds, e']
             exact drain_rest c _ _ _ _ _ hr' (by rw [hmu']; omega) ⟨by omega, fun _ => by rw [hmu']; omega⟩
       · -- only a part of the payload is there
         simp only [hcomp, decide_false, Bool.not_false, if_true]
@@ -358,7 +364,7 @@ theorem data_refines (c : Ctx) (s : S) (j : J) (o0 o1 : UInt8) (rest2 : Bytes) (
         by_cases hfl : (decide (h.plen rest2 = 0) || decide (body.length > 0)) = true
         · simp only [hfl, if_true]
           have hp := pr.2.1 hu hlt
-          rw [drain_stop F sB _ body [] (by rw [pds]; exact hp)]
+          rw [drain_stop F sB _ body [] hm.q.wc (by rw [pds]; exact hp)]
           have q := afterChunk_quiet c sB body.length un hm.q
           exact ⟨by simp only [afterChunk]; exact hm.evs, q.st, q.nf⟩
         · simp only [hfl, Bool.false_eq_true, if_false]
@@ -410,19 +416,21 @@ structure SameRecv (a b : S) : Prop where
   total : b.totalLen = a.totalLen
   utf8 : b.utf8 = a.utf8
   ends : b.utf8Ends = a.utf8Ends
+  wc : b.wasClean = a.wasClean
 
 theorem SameRecv.of_SendEq {a b : S} (h : SendEq a b) : SameRecv a b := by
   unfold SendEq at h
-  refine ⟨?_, ?_, ?_, ?_, ?_, ?_, ?_, ?_, ?_, ?_, ?_, ?_, ?_, ?_⟩ <;> rw [h]
+  refine ⟨?_, ?_, ?_, ?_, ?_, ?_, ?_, ?_, ?_, ?_, ?_, ?_, ?_, ?_, ?_⟩ <;> rw [h]
 
 theorem SameRecv.trans {a b c : S} (h1 : SameRecv a b) (h2 : SameRecv b c) : SameRecv a c :=
   ⟨h2.st.trans h1.st, h2.nf.trans h1.nf, h2.lost.trans h1.lost, h2.pp.trans h1.pp, h2.pt.trans h1.pt,
    h2.cfg.trans h1.cfg, h2.inside.trans h1.inside, h2.binary.trans h1.binary, h2.compressed.trans h1.compressed,
-   h2.utf8On.trans h1.utf8On, h2.md.trans h1.md, h2.total.trans h1.total, h2.utf8.trans h1.utf8, h2.ends.trans h1.ends⟩
+   h2.utf8On.trans h1.utf8On, h2.md.trans h1.md, h2.total.trans h1.total, h2.utf8.trans h1.utf8, h2.ends.trans h1.ends,
+   h2.wc.trans h1.wc⟩
 
 theorem Rel.transfer {c : Ctx} {a b : S} {j : J} (hr : Rel c a j) (hs : SameRecv a b) (hcur : b.cur = none)
     (e : Ev) (hev : evsOf b.log = evsOf a.log ++ [e]) : Rel c b { j with evs := j.evs ++ [e] } := by
-  refine ⟨⟨?_, ?_, ?_, ?_, ?_, ?_, ?_⟩, hcur, ?_, ?_, fun hin => ⟨?_, ?_, ?_, ?_, ?_, ?_, ?_⟩⟩
+  refine ⟨⟨?_, ?_, ?_, ?_, ?_, ?_, ?_, ?_⟩, hcur, ?_, ?_, fun hin => ⟨?_, ?_, ?_, ?_, ?_, ?_, ?_⟩⟩
   · rw [hs.st]; exact hr.q.st
   · rw [hs.nf]; exact hr.q.nf
   · rw [hs.lost]; exact hr.q.lost
@@ -430,6 +438,7 @@ theorem Rel.transfer {c : Ctx} {a b : S} {j : J} (hr : Rel c a j) (hs : SameRecv
   · rw [hs.pt]; exact hr.q.pt
   · rw [hs.cfg]; exact hr.q.fbd
   · rw [hs.cfg]; exact hr.q.ctx
+  · rw [hs.wc]; exact hr.q.wc
   · rw [hs.inside]; exact hr.inside
   · rw [hev, hr.evs]
   · rw [hs.binary]; exact (hr.msg hin).binary
@@ -457,7 +466,7 @@ theorem ping_step (c : Ctx) (s y : S) (j : J) (hdr : Hdr) (hop : hdr.opcode = 9)
   · exact ⟨hsr.st.trans hy.st, hsr.nf.trans hy.nf, hsr.lost.trans hy.lost, hsr.pp.trans hy.pp, hsr.pt.trans hy.pt,
       hsr.cfg.trans hy.cfg, hsr.inside.trans hy.inside, hsr.binary.trans hy.binary, hsr.compressed.trans hy.compressed,
       hsr.utf8On.trans hy.utf8On, hsr.md.trans hy.md, hsr.total.trans hy.total, hsr.utf8.trans hy.utf8,
-      hsr.ends.trans hy.ends⟩
+      hsr.ends.trans hy.ends, hsr.wc.trans hy.wc⟩
   · rfl
   · show evsOf (sendPong _ _).log = _
     rw [hev]
@@ -475,7 +484,7 @@ theorem pong_step (c : Ctx) (s y : S) (j : J) (hdr : Hdr) (hop : hdr.opcode = 10
   rw [e]
   apply Rel.transfer hr (b := { (({ y with controlData := [] } : S).emit (.onPong y.controlData)) with cur := none })
   · exact ⟨hy.st, hy.nf, hy.lost, hy.pp, hy.pt, hy.cfg, hy.inside, hy.binary, hy.compressed, hy.utf8On, hy.md,
-      hy.total, hy.utf8, hy.ends⟩
+      hy.total, hy.utf8, hy.ends, hy.wc⟩
   · rfl
   · show evsOf (y.log ++ [Out.onPong y.controlData]) = _
     rw [evsOf_append, hylog]
@@ -678,7 +687,7 @@ theorem control_refines (c : Ctx) (s : S) (j : J) (o0 o1 : UInt8) (rest2 : Bytes
   rw [ob] at e2
   generalize hsC : ({ s with cur := some (hdrRec h rest2), ptr := 0, unmask := um, controlData := [] } : S) = sC at *
   have hsame : SameRecv s sC := by
-    rw [← hsC]; exact ⟨rfl, rfl, rfl, rfl, rfl, rfl, rfl, rfl, rfl, rfl, rfl, rfl, rfl, rfl⟩
+    rw [← hsC]; exact ⟨rfl, rfl, rfl, rfl, rfl, rfl, rfl, rfl, rfl, rfl, rfl, rfl, rfl, rfl, rfl⟩
   have hlogC : sC.log = s.log := by rw [← hsC]
   have hcurC : sC.cur = some (hdrRec h rest2) := by rw [← hsC]
   have hptrC : sC.ptr = 0 := by rw [← hsC]
@@ -692,7 +701,8 @@ theorem control_refines (c : Ctx) (s : S) (j : J) (o0 o1 : UInt8) (rest2 : Bytes
     · rw [hunmC, ← hum, hcfgC]
     · intro hz; rw [hz]; rfl
   obtain ⟨F, rfl⟩ : ∃ F', F = F' + 2 := ⟨F - 2, by omega⟩
-  have hd1 := drain_one (F + 1) s (o0 :: o1 :: rest2)
+  have hwcC : sC.wasClean = false := by rw [hsame.wc]; exact hr.q.wc
+  have hd1 := drain_one (F + 1) s (o0 :: o1 :: rest2) hr.q.wc
   rw [e1, e2] at hd1
   simp only [hopenC, ne_eq, not_false_eq_true, decide_true, Bool.and_true] at hd1
   have cp := control_payload sC (hdrRec h rest2) body hc7 hptrC hcdC
@@ -718,7 +728,7 @@ theorem control_refines (c : Ctx) (s : S) (j : J) (o0 o1 : UInt8) (rest2 : Bytes
     have hsy : SameRecv s y := by
       rw [← hy]
       exact ⟨hsame.st, hsame.nf, hsame.lost, hsame.pp, hsame.pt, hsame.cfg, hsame.inside, hsame.binary,
-        hsame.compressed, hsame.utf8On, hsame.md, hsame.total, hsame.utf8, hsame.ends⟩
+        hsame.compressed, hsame.utf8On, hsame.md, hsame.total, hsame.utf8, hsame.ends, hsame.wc⟩
     have hylog : y.log = s.log := by rw [← hy]; exact hlogC
     have hycd : y.controlData = un := by rw [← hy]
     have hopy : (hdrRec h rest2).opcode = h.opcode := rfl
@@ -743,7 +753,7 @@ theorem control_refines (c : Ctx) (s : S) (j : J) (o0 o1 : UInt8) (rest2 : Bytes
                 && decide (({ processControlFrame y (hdrRec h rest2) with cur := none } : S).st ≠ .closed)
              then drain F { processControlFrame y (hdrRec h rest2) with cur := none } (body.drop (h.plen rest2))
              else ({ processControlFrame y (hdrRec h rest2) with cur := none }, body.drop (h.plen rest2))) := by
-        rw [hd1, drain_one, pds, hp]
+        rw [hd1, drain_one _ _ _ hwcC, pds, hp]
       -- every failing case ends the same way
       have failcase : ∀ code, Failed { y with controlData := [] } (processControlFrame y (hdrRec h rest2)) →
           Agree c (drain (F + 1 + 1) s (o0 :: o1 :: rest2)).1 j.evs (.fail code) (o0 :: o1 :: rest2).length := by
@@ -765,14 +775,12 @@ theorem control_refines (c : Ctx) (s : S) (j : J) (o0 o1 : UInt8) (rest2 : Bytes
           rw [hk.2.2.2.2.2]
           show (if y.cfg.isServer = true then St.closed else St.closing) = _
           rw [hsrv]
-        intro hside
         have hstop : (drain (F + 1 + 1) s (o0 :: o1 :: rest2)).1
             = { processControlFrame y (hdrRec h rest2) with cur := none } := by
           rw [hdrn]
-          rcases hside with hsv | hre
-          · rw [drain_after_closed F { processControlFrame y (hdrRec h rest2) with cur := none } _
-              (by show (processControlFrame y (hdrRec h rest2)).st = .closed; rw [hstf, hsv]; rfl)]
-          · rw [drain_after_empty F { processControlFrame y (hdrRec h rest2) with cur := none } _ hre]
+          split
+          · rw [drain_wasClean F _ _ (by show (processControlFrame y (hdrRec h rest2)).wasClean = true; exact hk.1)]
+          · rfl
         rw [hstop]
         refine ⟨?_, hk.1, ?_, hstf⟩
         · show evsOf (processControlFrame y (hdrRec h rest2)).log
@@ -828,7 +836,7 @@ theorem control_refines (c : Ctx) (s : S) (j : J) (o0 o1 : UInt8) (rest2 : Bytes
           = 2 * (body.drop (h.plen rest2)).length := by
         unfold mu; simp
       refine ⟨_, hrel, hrl, ?_⟩
-      rw [hd1, drain_one, pds, hp]
+      rw [hd1, drain_one _ _ _ hwcC, pds, hp]
       exact drain_rest c _ _ _ _ _ hrel (by rw [hmu']; omega) ⟨by omega, fun _ => by rw [hmu']; omega⟩
     · -- pong
       have n9 : ¬ h.opcode = 9 := by omega
@@ -839,7 +847,7 @@ theorem control_refines (c : Ctx) (s : S) (j : J) (o0 o1 : UInt8) (rest2 : Bytes
           = 2 * (body.drop (h.plen rest2)).length := by
         unfold mu; simp
       refine ⟨_, hrel, hrl, ?_⟩
-      rw [hd1, drain_one, pds, hp]
+      rw [hd1, drain_one _ _ _ hwcC, pds, hp]
       exact drain_rest c _ _ _ _ _ hrel (by rw [hmu']; omega) ⟨by omega, fun _ => by rw [hmu']; omega⟩
   · -- the control frame is not complete yet: nothing happens
     simp only [hcomp, decide_false, Bool.not_false, if_true]
@@ -848,7 +856,7 @@ theorem control_refines (c : Ctx) (s : S) (j : J) (o0 o1 : UInt8) (rest2 : Bytes
     rw [hd1]
     by_cases hfl : (decide (h.plen rest2 = 0) || decide (body.length > 0)) = true
     · simp only [hfl, if_true]
-      rw [drain_stop F sC _ body [] (by rw [pds]; exact cp.1 hlt)]
+      rw [drain_stop F sC _ body [] hwcC (by rw [pds]; exact cp.1 hlt)]
       exact ⟨by show evsOf sC.log = j.evs; rw [hlogC]; exact hr.evs, by show sC.st = .opened; rw [hsame.st]; exact hr.q.st,
         by show sC.failedByMe = false; rw [hsame.nf]; exact hr.q.nf⟩
     · simp only [hfl, Bool.false_eq_true, if_false]
